@@ -41,7 +41,7 @@ def run(ctx):
                     length = min(n, (200000 if p < 1000 else 40000) if ctx.thorough else 6000)     # O(period) per step
                 if ctx.thorough and p == 1000 and ind not in ("MAD", "CCI"):
                     length = min(n, 400000)
-                every = max(1, length // (40 if not (ind in ("MAD", "CCI") and p >= 100) else 6))
+                every = max(1, length // (40 if not (ind in ("MAD", "CCI") and p >= 100) else (6 if p < 1000 else 2)))   # exact recomputation of a MAD window is O(p^2) big-rational operations
                 cases.append(GenCase("g%d_%s_p%d_r%d" % (k, ind, p, g), ind, (p, 0, 0, 2.0 if ind == "BB" else 0.0), g,
                                      r.getrandbits(62), length, m, 1000.0 * m, every, (r.choice([1, 1, 2]) if ind in BARS else 0), p + 1,
                                      meta={"ind": ind, "p": p, "regime": g, "band": m, "n": length}))
@@ -66,7 +66,7 @@ def run(ctx):
                                  meta={"ind": ind, "p": p, "regime": g, "band": 1.0, "n": 140000, "long": True}))
             k += 1
     run_gen_harness(ctx.binary_release or ctx.binary, cases, "C13")
-    res = coq_check_gen(cases, "C13")
+    res = coq_check_gen(cases, "C13", timeout=3000 if not ctx.thorough else 9000)
     viol = []
     t1_bad = []
     for c, x in zip(cases, res):
